@@ -21,6 +21,7 @@ theorem SoundRO.weaken {r n i n' i' : Bool} (h : SoundRO r n i) (hn : n' = true 
 structure Sound (s0 s : St) (a : Abs) : Prop where
   clean : ∀ f ∈ a.clean, s.cur f = s0.cur f
   valid : ∀ f ∈ a.valid, s.saved f = s0.cur f
+  cvalid : ∀ f ∈ a.cvalid, s.copies f = s0.cur f
   fresh : ∀ f ∈ a.fresh, s0.next ≤ s.cur f
   known : ∀ p ∈ a.known, s.flags p.1 = p.2
   next : s0.next ≤ s.next
@@ -39,18 +40,20 @@ def OK (s0 : St) (r : Res) (p : Post) : Prop :=
   | .stuck => True
 
 theorem Sound.meet_left {s0 s : St} {a : Abs} (b : Abs) (h : Sound s0 s a) : Sound s0 s (a.meet b) := by
-  refine ⟨?_, ?_, ?_, ?_, h.next, ?_⟩
+  refine ⟨?_, ?_, ?_, ?_, ?_, h.next, ?_⟩
   · intro f hf; exact h.clean f (List.mem_filter.mp hf).1
   · intro f hf; exact h.valid f (List.mem_filter.mp hf).1
+  · intro f hf; exact h.cvalid f (List.mem_filter.mp hf).1
   · intro f hf; exact h.fresh f (List.mem_filter.mp hf).1
   · intro p hp; exact h.known p (List.mem_filter.mp hp).1
   · exact h.ro.weaken (fun x => by simp only [Abs.meet, Bool.and_eq_true] at x; exact x.1)
       (fun x => by simp only [Abs.meet, Bool.and_eq_true] at x; exact x.1)
 
 theorem Sound.meet_right {s0 s : St} {b : Abs} (a : Abs) (h : Sound s0 s b) : Sound s0 s (a.meet b) := by
-  refine ⟨?_, ?_, ?_, ?_, h.next, ?_⟩
+  refine ⟨?_, ?_, ?_, ?_, ?_, h.next, ?_⟩
   · intro f hf; exact h.clean f (by simpa using (List.mem_filter.mp hf).2)
   · intro f hf; exact h.valid f (by simpa using (List.mem_filter.mp hf).2)
+  · intro f hf; exact h.cvalid f (by simpa using (List.mem_filter.mp hf).2)
   · intro f hf; exact h.fresh f (by simpa using (List.mem_filter.mp hf).2)
   · intro p hp; exact h.known p (by simpa using (List.mem_filter.mp hp).2)
   · exact h.ro.weaken (fun x => by simp only [Abs.meet, Bool.and_eq_true] at x; exact x.2)
@@ -58,8 +61,8 @@ theorem Sound.meet_right {s0 s : St} {b : Abs} (a : Abs) (h : Sound s0 s b) : So
 
 theorem Sound.of_le {s0 s : St} {i x : Abs} (hle : i.le x = true) (h : Sound s0 s x) : Sound s0 s i := by
   simp only [Abs.le, Bool.and_eq_true, List.all_eq_true, decide_eq_true_eq] at hle
-  obtain ⟨⟨⟨⟨⟨h1, h2⟩, h3⟩, h4⟩, h5⟩, h6⟩ := hle
-  refine ⟨fun f hf => h.clean f (h1 f hf), fun f hf => h.valid f (h2 f hf),
+  obtain ⟨⟨⟨⟨⟨⟨h1, h2⟩, h2c⟩, h3⟩, h4⟩, h5⟩, h6⟩ := hle
+  refine ⟨fun f hf => h.clean f (h1 f hf), fun f hf => h.valid f (h2 f hf), fun f hf => h.cvalid f (h2c f hf),
          fun f hf => h.fresh f (h3 f hf), fun p hp => h.known p (h4 p hp), h.next, ?_⟩
   apply h.ro.weaken
   · intro hn; cases hx : x.nro
@@ -70,7 +73,7 @@ theorem Sound.of_le {s0 s : St} {i x : Abs} (hle : i.le x = true) (h : Sound s0 
     · rfl
 
 theorem Sound.bot {s0 s : St} {a : Abs} (h : Sound s0 s a) : Sound s0 s Abs.bot :=
-  ⟨fun _ hf => by simp [Abs.bot] at hf, fun _ hf => by simp [Abs.bot] at hf,
+  ⟨fun _ hf => by simp [Abs.bot] at hf, fun _ hf => by simp [Abs.bot] at hf, fun _ hf => by simp [Abs.bot] at hf,
    fun _ hf => by simp [Abs.bot] at hf, fun _ hf => by simp [Abs.bot] at hf, h.next,
    ⟨fun hn => by simp [Abs.bot] at hn, fun hn => by simp [Abs.bot] at hn⟩⟩
 
@@ -103,12 +106,13 @@ variable {s0 s : St} {a : Abs}
 
 theorem sound_assign (f : Field) (h : Sound s0 s a) :
     Sound s0 (s.assign f) { a with clean := a.clean.filter (· ≠ f), fresh := f :: a.fresh } := by
-  refine ⟨?_, ?_, ?_, ?_, ?_, by simpa using h.ro⟩
+  refine ⟨?_, ?_, ?_, ?_, ?_, ?_, by simpa using h.ro⟩
   · intro g hg
     have hg' := List.mem_filter.mp hg
     have hne : g ≠ f := by simpa using hg'.2
     simp [St.assign, St.setCur, hne, h.clean g hg'.1]
   · intro g hg; simpa [St.assign, St.setCur] using h.valid g hg
+  · intro g hg; simpa [St.assign, St.setCur] using h.cvalid g hg
   · intro g hg
     by_cases e : g = f
     · subst e; simp [St.assign, St.setCur, h.next]
@@ -122,7 +126,12 @@ theorem sound_mutate (h0 : ∀ f, s0.cur f < s0.next) (f : Field) (h : Sound s0 
       { a with clean := a.clean.filter (· ≠ f),
                valid := if f ∈ a.fresh then a.valid else a.valid.filter (· ≠ f),
                fresh := f :: a.fresh } := by
-  refine ⟨?_, ?_, ?_, ?_, ?_, by simpa using h.ro⟩
+  refine ⟨?_, ?_, ?_, ?_, ?_, ?_, by simpa using h.ro⟩
+  rotate_left 2
+  · intro g hg
+    simp only [St.mutate]
+    split <;> simpa [St.setCur, St.setSaved] using h.cvalid g hg
+  rotate_right 2
   · intro g hg
     have hg' := List.mem_filter.mp hg
     have hne : g ≠ f := by simpa using hg'.2
@@ -165,6 +174,7 @@ theorem sound_save (f : Field) (h : Sound s0 s a) :
     Sound s0 (s.setSaved f (s.cur f))
       { a with valid := if f ∈ a.clean then f :: a.valid else a.valid.filter (· ≠ f) } := by
   refine ⟨fun g hg => by simpa [St.setSaved] using h.clean g hg, ?_,
+          fun g hg => by simpa [St.setSaved] using h.cvalid g hg,
           fun g hg => by simpa [St.setSaved] using h.fresh g hg,
           fun p hp => by simpa [St.setSaved] using h.known p hp, by simpa [St.setSaved] using h.next,
           by simpa using h.ro⟩
@@ -186,7 +196,8 @@ theorem sound_restore (f : Field) (h : Sound s0 s a) :
     Sound s0 (s.setCur f (s.saved f))
       { a with clean := if f ∈ a.valid then f :: a.clean else a.clean.filter (· ≠ f),
                fresh := a.fresh.filter (· ≠ f) } := by
-  refine ⟨?_, fun g hg => by simpa [St.setCur] using h.valid g hg, ?_,
+  refine ⟨?_, fun g hg => by simpa [St.setCur] using h.valid g hg,
+          fun g hg => by simpa [St.setCur] using h.cvalid g hg, ?_,
           fun p hp => by simpa [St.setCur] using h.known p hp, by simpa [St.setCur] using h.next,
           by simpa using h.ro⟩
   · intro g hg
@@ -207,8 +218,53 @@ theorem sound_restore (f : Field) (h : Sound s0 s a) :
     have hne : g ≠ f := by simpa using hg'.2
     simp [St.setCur, hne, h.fresh g hg'.1]
 
+theorem sound_saveC (f : Field) (h : Sound s0 s a) :
+    Sound s0 { s with copies := fun g => if g = f then s.cur f else s.copies g }
+      { a with cvalid := if f ∈ a.clean then f :: a.cvalid else a.cvalid.filter (· ≠ f) } := by
+  refine ⟨h.clean, h.valid, ?_, h.fresh, h.known, h.next, h.ro⟩
+  intro g hg
+  by_cases e : g = f
+  · subst e
+    by_cases hc : g ∈ a.clean
+    · simp [h.clean g hc]
+    · have : g ∈ a.cvalid.filter (· ≠ g) := by simpa [hc] using hg
+      simp at this
+  · have hv : g ∈ a.cvalid := by
+      by_cases hc : f ∈ a.clean
+      · simpa [hc, e] using hg
+      · have : g ∈ a.cvalid.filter (· ≠ f) := by simpa [hc] using hg
+        exact (List.mem_filter.mp this).1
+    simp [e, h.cvalid g hv]
+
+theorem sound_restoreC (f : Field) (h : Sound s0 s a) :
+    Sound s0 (s.setCur f (s.copies f))
+      { a with clean := if f ∈ a.cvalid then f :: a.clean else a.clean.filter (· ≠ f),
+               fresh := a.fresh.filter (· ≠ f) } := by
+  refine ⟨?_, fun g hg => by simpa [St.setCur] using h.valid g hg,
+          fun g hg => by simpa [St.setCur] using h.cvalid g hg, ?_,
+          fun p hp => by simpa [St.setCur] using h.known p hp, by simpa [St.setCur] using h.next,
+          by simpa using h.ro⟩
+  · intro g hg
+    by_cases e : g = f
+    · subst e
+      by_cases hv : g ∈ a.cvalid
+      · simp [St.setCur, h.cvalid g hv]
+      · have : g ∈ a.clean.filter (· ≠ g) := by simpa [hv] using hg
+        simp at this
+    · have hc : g ∈ a.clean := by
+        by_cases hv : f ∈ a.cvalid
+        · simpa [hv, e] using hg
+        · have : g ∈ a.clean.filter (· ≠ f) := by simpa [hv] using hg
+          exact (List.mem_filter.mp this).1
+      simp [St.setCur, e, h.clean g hc]
+  · intro g hg
+    have hg' := List.mem_filter.mp hg
+    have hne : g ≠ f := by simpa using hg'.2
+    simp [St.setCur, hne, h.fresh g hg'.1]
+
 theorem sound_dropFlag (b : Flag) (v : Bool) (h : Sound s0 s a) : Sound s0 (s.setFlag b v) (a.dropFlag b) := by
   refine ⟨fun g hg => by simpa [St.setFlag] using h.clean g hg, fun g hg => by simpa [St.setFlag] using h.valid g hg,
+          fun g hg => by simpa [St.setFlag] using h.cvalid g hg,
           fun g hg => by simpa [St.setFlag] using h.fresh g hg, ?_, by simpa [St.setFlag] using h.next,
           by simpa [Abs.dropFlag] using h.ro⟩
   intro p hp
@@ -218,7 +274,7 @@ theorem sound_dropFlag (b : Flag) (v : Bool) (h : Sound s0 s a) : Sound s0 (s.se
 
 theorem sound_setFlag (b : Flag) (v : Bool) (h : Sound s0 s a) : Sound s0 (s.setFlag b v) (a.setFlag b v) := by
   have hd := sound_dropFlag b v h
-  refine ⟨hd.clean, hd.valid, hd.fresh, ?_, hd.next, hd.ro⟩
+  refine ⟨hd.clean, hd.valid, hd.cvalid, hd.fresh, ?_, hd.next, hd.ro⟩
   intro p hp
   simp only [Abs.setFlag, List.mem_cons] at hp
   rcases hp with rfl | hp
@@ -332,11 +388,13 @@ theorem post_sound (s0 : St) (h0 : ∀ f, s0.cur f < s0.next) :
       | skip => simp only [run, post]; exact ⟨a, rfl, hs⟩
       | mark k =>
         simp only [run, post]
-        exact ⟨a, rfl, ⟨hs.clean, hs.valid, hs.fresh, hs.known, hs.next, hs.ro⟩⟩
+        exact ⟨a, rfl, ⟨hs.clean, hs.valid, hs.cvalid, hs.fresh, hs.known, hs.next, hs.ro⟩⟩
       | assign f => simp only [run, post]; exact ⟨_, rfl, sound_assign f hs⟩
       | mutate f => simp only [run, post]; exact ⟨_, rfl, sound_mutate h0 f hs⟩
       | save f => simp only [run, post]; exact ⟨_, rfl, sound_save f hs⟩
       | restore f => simp only [run, post]; exact ⟨_, rfl, sound_restore f hs⟩
+      | saveC f => simp only [run, post]; exact ⟨_, rfl, sound_saveC f hs⟩
+      | restoreC f => simp only [run, post]; exact ⟨_, rfl, sound_restoreC f hs⟩
       | guard =>
         simp only [run, post]
         cases hi : a.isro with
@@ -356,7 +414,7 @@ theorem post_sound (s0 : St) (h0 : ∀ f, s0.cur f < s0.next) :
             cases hr : s.readonly with
             | true => exact ⟨a, rfl, hs⟩
             | false =>
-              refine ⟨_, rfl, ⟨hs.clean, hs.valid, hs.fresh, hs.known, hs.next, ?_⟩⟩
+              refine ⟨_, rfl, ⟨hs.clean, hs.valid, hs.cvalid, hs.fresh, hs.known, hs.next, ?_⟩⟩
               exact ⟨fun _ => hr, fun x => by simp [hi] at x⟩
       | raise => simp only [run, post]; exact ⟨a, rfl, hs⟩
       | mayRaise =>
@@ -536,12 +594,12 @@ theorem post_sound (s0 : St) (h0 : ∀ f, s0.cur f < s0.next) :
 
 theorem entry_sound (fs : List Field) (st : St) : Sound st st (Abs.entry fs) :=
   ⟨fun _ _ => rfl, fun _ h => by simp [Abs.entry] at h, fun _ h => by simp [Abs.entry] at h,
-   fun _ h => by simp [Abs.entry] at h, Nat.le_refl _,
+   fun _ h => by simp [Abs.entry] at h, fun _ h => by simp [Abs.entry] at h, Nat.le_refl _,
    ⟨fun h => by simp [Abs.entry] at h, fun h => by simp [Abs.entry] at h⟩⟩
 
 theorem entryRO_sound (fs : List Field) (st : St) (hro : st.readonly = true) : Sound st st (Abs.entryRO fs) :=
   ⟨fun _ _ => rfl, fun _ h => by simp [Abs.entryRO] at h, fun _ h => by simp [Abs.entryRO] at h,
-   fun _ h => by simp [Abs.entryRO] at h, Nat.le_refl _,
+   fun _ h => by simp [Abs.entryRO] at h, fun _ h => by simp [Abs.entryRO] at h, Nat.le_refl _,
    ⟨fun h => by simp [Abs.entryRO] at h, fun _ => hro⟩⟩
 
 theorem clean_of_holds {s0 s : St} {fs : List Field} {o : Option Abs} (h : Holds s0 o s)
